@@ -158,6 +158,8 @@ def run(db, rep, tier):
     rep.rule("R1-inverse", "getter(setter(o,v)) == v bit for bit for every representable v and every prior state", 200)
     rep.rule("R2-no-truncation", "no parameter bit is dropped unless the parameter type excludes it", 200)
     rep.rule("R3-footprint", "a setter changes only its own field's members and no getter of other bits", 200)
+    rep.rule("R4-serialiser-stores", "serialising assigns only the tabled derived fields (lengths, checksums, next-protocol tags ...): "
+                                     "every other field keeps the value that was set", 25)
     small_uint(db, rep)
     pairs = discover(db)
     if len(pairs) < 300:
@@ -314,6 +316,7 @@ def run(db, rep, tier):
         else:
             rep.ok("R3-footprint", key, site, "writes %d bit(s) inside {%s}; %d other getters unaffected" %
                    (len(changed), ",".join(sorted(ch_members)) or "-", n_cmp))
+    serialiser_stores(db, rep)
     rep.extra["pairs"] = dict(stats)
     rep.extra["pairs_total"] = len(pairs)
     rep.explanation = ("E-BITS composes each scalar setter with its getter in a bit-provenance domain (masks, shifts, byte swaps, casts, "
@@ -381,3 +384,100 @@ def small_uint(db, rep):
             rep.ok("R0-small-uint", key, facts.loc(f), "max_value=%d; constructor throws above it and stores the value" % mv[0]["v"])
     if n_inst < 8:
         rep.analysis_broken("only %d small_uint instantiations found" % n_inst)
+
+
+# fields a serialiser (write_serialization and the members it calls on *this) may assign, with the kind that makes them
+# derived; frozen from the pinned tree after reading each site.  Anything else that is assigned while serialising loses
+# the value the user (or the parser) put there.
+DERIVED_FIELDS = {
+    ("Tins::Dot1Q", "header_.type"): "next-protocol tag",
+    ("Tins::Dot3", "header_.length"): "length",
+    ("Tins::EAPOL", "header_.length"): "length",
+    ("Tins::EAPOL", "header_.key_length"): "length of the key data that follows (RC4EAPOL::write_body)",
+    ("Tins::EAPOL", "header_.wpa_length"): "length of the key data that follows (RSNEAPOL::write_body)",
+    ("Tins::EthernetII", "header_.payload_type"): "next-protocol tag",
+    ("Tins::ICMP", "header_.check"): "checksum",
+    ("Tins::ICMP", "header_.un.rfc4884.length"): "RFC 4884 length of the padded original datagram",
+    ("Tins::ICMPv6", "header_.cksum"): "checksum",
+    ("Tins::ICMPv6", "header_..rfc4884.length"): "RFC 4884 length",
+    ("Tins::ICMPv6", "header_..mlrm2.record_count"): "MLDv2 record count = multicast_records_.size()",
+    ("Tins::IP", "header_.check"): "checksum",
+    ("Tins::IP", "header_.frag_off"): "restored to its saved value after a platform-specific byte swap",
+    ("Tins::IP", "header_.ihl"): "header length",
+    ("Tins::IP", "header_.protocol"): "next-protocol tag",
+    ("Tins::IP", "header_.tot_len"): "length",
+    ("Tins::IPSecAH", "header_.length"): "length",
+    ("Tins::IPSecAH", "header_.next_header"): "next-protocol tag",
+    ("Tins::IPv6", "header_.next_header"): "next-protocol tag / head of the extension chain",
+    ("Tins::IPv6", "header_.payload_length"): "length",
+    ("Tins::LLC", "header_.dsap"): "SAP pair 0x42/0x42 announcing an STP payload (next-protocol tag)",
+    ("Tins::LLC", "header_.ssap"): "SAP pair 0x42/0x42 announcing an STP payload (next-protocol tag)",
+    ("Tins::Loopback", "family_"): "next-protocol tag (address family of the payload)",
+    ("Tins::MPLS", "header_.label_low_exp_and_bottom"): "bottom-of-stack bit derived from the inner layer",
+    ("Tins::PPPoE", "header_.payload_length"): "length",
+    ("Tins::RadioTap", "header_.it_len"): "length",
+    ("Tins::SLL", "header_.protocol"): "next-protocol tag",
+    ("Tins::SNAP", "snap_.eth_type"): "next-protocol tag",
+    ("Tins::TCP", "header_.check"): "checksum",
+    ("Tins::TCP", "header_.doff"): "data offset (header length)",
+    ("Tins::UDP", "header_.check"): "checksum",
+    ("Tins::UDP", "header_.len"): "length",
+}
+
+
+def serialiser_stores(db, rep):
+    from rules import c02, c05
+    from vlib.facts import strip
+
+    def stores_in(f, K, depth=0, seen=None):
+        seen = seen if seen is not None else set()
+        out = []
+        if f["id"] in seen or depth > 4:
+            return out
+        seen.add(f["id"])
+        for n in facts.fn_nodes(f):
+            ms = c05.member_store(f, n)
+            if ms:
+                out.append((facts.expr_str(ms[2]).replace("this->", ""), f, n))
+            if n["k"] == "CompoundAssignOperator" or (n["k"] == "UnaryOperator" and n.get("op") in ("++", "--")):
+                lhs = strip(n["c"][0])
+                if lhs["k"] == "MemberExpr" and lhs.get("isfield"):
+                    b = lhs
+                    while b["k"] == "MemberExpr" and b.get("c"):
+                        b = strip(b["c"][0])
+                    if b["k"] == "CXXThisExpr":
+                        out.append((facts.expr_str(lhs).replace("this->", ""), f, n))
+            if n["k"] == "CXXMemberCallExpr" and c05.strip_this(n):
+                cal = n.get("callee")
+                fs = db.functions.get(cal)
+                if n.get("virt") and K and cal and "(" in cal:
+                    ov = c02.final(db, K, n.get("cname"), cal[cal.index("("):])
+                    if ov is not None:
+                        fs = ov
+                if fs is not None and fs.get("body") and not fs["id"].endswith(" const") and (fs.get("rec") or "").startswith("Tins::"):
+                    out += stores_in(fs, K, depth + 1, seen)
+        return out
+    seen_keys = set()
+    n_ser = 0
+    for K in c02.concrete_classes(db):
+        w = c02.final(db, K, "write_serialization", "(unsigned char *, unsigned int)")
+        if w is None:
+            continue
+        n_ser += 1
+        for fld, f, node in stores_in(w, K):
+            # scalar header state only: container elements and caches are C02/C04's business
+            root = fld.split(".")[0].split("[")[0]
+            r = db.records.get(w["rec"]) or {}
+            key = (w["rec"], fld)
+            if key in seen_keys:
+                continue
+            seen_keys.add(key)
+            okey = "%s:%s" % (w["rec"].split("::")[-1], fld)
+            if key in DERIVED_FIELDS:
+                rep.ok("R4-serialiser-stores", okey, facts.loc(f, node), "derived: %s" % DERIVED_FIELDS[key])
+            else:
+                rep.violation("R4-serialiser-stores", okey, facts.loc(f, node),
+                              "%s assigns `%s` while serialising (in %s); it is not one of the fields libtins derives, so the value set through "
+                              "the API - or parsed from the wire - is lost by serialize()" % (w["rec"].split("::")[-1], fld, f["qual"].split("::")[-1]))
+    if n_ser < 50:
+        rep.analysis_broken("only %d serialisers enumerated" % n_ser)
